@@ -126,14 +126,26 @@ def rows(inp):
         yield i, np.array(r[0], float), np.array(r[1], float), np.array(nr[0], float), np.array(nr[1], float)
 
 
+TORCH_DT = {'int64': torch.int64, 'int32': torch.int32, 'float32': torch.float32, 'float64': torch.float64}
+
+
+def typed(values, dtype, which, two_d=False):
+    """the nested list `values` as the caller would hand it over: a NumPy array / torch tensor of the named dtype, or (NumPy API
+    only) the python list itself"""
+    if two_d: values = values[0]
+    if which == 'torch':
+        return torch.tensor(values, dtype=TORCH_DT[dtype or 'float32'])
+    if dtype == 'list':
+        return values
+    return np.array(values, dtype=dtype or 'float64')
+
+
 def call_reflect(inp):
     lr, nr = api()
+    rays = typed(inp['rays'], inp.get('ray_dtype'), inp['api'], inp.get('two_d'))
+    nrms = typed(inp['normals'], inp.get('normal_dtype'), inp['api'], inp.get('two_d'))
     if inp['api'] == 'torch':
-        rays = torch.tensor(inp['rays'], dtype=torch.float32); nrms = torch.tensor(inp['normals'], dtype=torch.float32)
-        if inp.get('two_d'): rays, nrms = rays[0], nrms[0]
         return lr.reflect(rays, nrms).numpy().astype(float)
-    rays = np.array(inp['rays'], float); nrms = np.array(inp['normals'], float)
-    if inp.get('two_d'): rays, nrms = rays[0], nrms[0]
     return np.asarray(nr.reflect(rays, nrms), float)
 
 
@@ -150,7 +162,7 @@ def oracle_reflect(inp):
     res.append(('output_shape', ok_shape, '%d x 2 x 3' % m, list(out.shape)))
     if not ok_shape:
         return res
-    twice = call_reflect(dict(inp, rays=[[inp['rays'][0 if len(inp['rays']) == 1 else i][0], out[i, 1].tolist()] for i in range(m)])).reshape(m, 2, 3)
+    twice = call_reflect(dict(inp, ray_dtype=None, rays=[[inp['rays'][0 if len(inp['rays']) == 1 else i][0], out[i, 1].tolist()] for i in range(m)])).reshape(m, 2, 3)
     w = {'finite': 0.0, 'length': 0.0, 'normal_component': 0.0, 'tangential_component': 0.0, 'coplanar': 0.0, 'involutive': 0.0, 'origin': 0.0}
     for i, o, d, p, n in rows(inp):
         if inp['api'] == 'torch':
@@ -167,6 +179,11 @@ def oracle_reflect(inp):
         w['origin'] = max(w['origin'], float(np.linalg.norm(out[i, 0] - p)))
     for k, v in w.items():
         res.append((k, v <= (0 if k in ('finite', 'origin') else 4 * tol), '<= %g' % (0 if k in ('finite', 'origin') else 4 * tol), v))
+    if inp.get('ray_dtype') or inp.get('normal_dtype'):
+        # the same geometry handed over as float arrays must give the same ray: the dtype of the caller's array is not geometry
+        ref = call_reflect(dict(inp, ray_dtype=None, normal_dtype=None)).reshape(m, 2, 3)
+        dev = float(np.max(np.abs(out - ref))) if np.all(np.isfinite(out)) else float('inf')
+        res.append(('same_as_float_input', dev <= 4 * tol, '<= %g' % (4 * tol), dev))
     return res
 
 
@@ -189,7 +206,7 @@ def guard():
 def w_refract(inp, rows_=None):
     """(worker side) the real refract on float32 tensors; nested lists"""
     lr, _ = api()
-    rays = torch.tensor(inp['rays'], dtype=torch.float32); nrms = torch.tensor(inp['normals'], dtype=torch.float32)
+    rays = torch.tensor(inp['rays'], dtype=TORCH_DT[inp.get('ray_dtype') or 'float32']); nrms = torch.tensor(inp['normals'], dtype=TORCH_DT[inp.get('normal_dtype') or 'float32'])
     if rows_ is not None:
         k = 0 if nrms.shape[0] == 1 else rows_; kr = 0 if rays.shape[0] == 1 else rows_
         rays = rays[kr:kr + 1]; nrms = nrms[k:k + 1]
@@ -214,7 +231,7 @@ def guarded(fn, *args):
 
 
 def call_refract(inp, rows_=None):
-    return guarded('w_refract', {k: inp[k] for k in ('rays', 'normals', 'n1', 'n2', 'error', 'two_d') if k in inp}, rows_)
+    return guarded('w_refract', {k: inp[k] for k in ('rays', 'normals', 'n1', 'n2', 'error', 'two_d', 'ray_dtype', 'normal_dtype') if k in inp}, rows_)
 
 
 def oracle_refract(inp):
@@ -250,6 +267,10 @@ def oracle_refract(inp):
              'far_side': 2 * err + 4 * TOL32, 'origin': 0, 'same_index_unchanged': 4 * TOL32, 'batch_equals_single': 2 * err + 4 * TOL32}
     for k, v in w.items():
         res.append((k, v <= bound[k], '<= %g' % bound[k], v))
+    if inp.get('ray_dtype') or inp.get('normal_dtype'):
+        ref = call_refract(dict(inp, ray_dtype=None, normal_dtype=None))
+        dev = float(np.max(np.abs(out - ref))) if np.all(np.isfinite(out)) else float('inf')
+        res.append(('same_as_float_input', dev <= 2 * err + 4 * TOL32, '<= %g' % (2 * err + 4 * TOL32), dev))
     return res
 
 
@@ -287,6 +308,44 @@ def apply_oracle(ctx, name, inp):
         if not ok:
             ctx.violation(fn, clause, dict(inp, oracle=name), exp, obs)
     return res
+
+
+def gen_dtype(ctx, n):
+    """the dtype family: the same geometric cases with the ray (or the normal) handed over as an int64 / int32 / float32 / float64
+    array or tensor and (NumPy) as a python list: axis-aligned and small-integer directions and integer origins with non-integer
+    normals and hit points, and integer normals with non-integer rays; one ray, batches, a shared normal, one ray x m normals"""
+    rng = ctx.rng
+    dirs = [[0, 0, 1], [0, 0, -1], [1, 0, 0], [0, -1, 0], [1, 1, 0], [1, -1, 2], [0, 2, -1], [-3, 0, 1]]
+    refl, refr = [], []
+    for i in range(n):
+        m = [1, 1, 2, 3][i % 4]
+        shape = ['rows', 'shared', 'one-ray'][(i // 4) % 3] if m > 1 else 'rows'
+        two_d = m == 1 and i % 8 == 0
+        # (a) integer ray, non-integer normal
+        rays = [[[rng.randint(-3, 3) for _ in range(3)], list(rng.choice(dirs))] for _ in range(1 if shape == 'one-ray' else m)]
+        nrms = [[[rng.uniform(-2, 2) for _ in range(3)], (unit(rng) * 10 ** rng.uniform(-1, 1)).tolist()] for _ in range(1 if shape == 'shared' else m)]
+        for dt in ('int64', 'int32', 'float32', 'float64', 'list'):
+            refl.append({'rays': rays, 'normals': nrms, 'two_d': two_d, 'ray_dtype': dt, 'normal_dtype': 'list' if dt == 'list' and i % 2 else None,
+                         'kind': 'dtype/ray=%s/%s%d' % (dt, shape, m)})
+        # (b) integer normal, non-integer ray
+        nrm_i = [[[rng.randint(-3, 3) for _ in range(3)], list(rng.choice(dirs))] for _ in range(1 if shape == 'shared' else m)]
+        rays_f = [[[rng.uniform(-2, 2) for _ in range(3)], unit(rng).tolist()] for _ in range(1 if shape == 'one-ray' else m)]
+        for dt in ('int64', 'int32', 'list'):
+            refl.append({'rays': rays_f, 'normals': nrm_i, 'two_d': two_d, 'ray_dtype': None, 'normal_dtype': dt, 'kind': 'dtype/normal=%s/%s%d' % (dt, shape, m)})
+        # refraction (PyTorch only): an axis-aligned integer ray onto a surface tilted by at most 30 degrees
+        if i % 2 == 0:
+            d = list(rng.choice(dirs[:4])); dn = np.array(d, float)
+            nr_ = []
+            for _ in range(1 if shape == 'shared' else m):
+                t = np.cross(dn, unit(rng)); t = t / np.linalg.norm(t)
+                th = rng.uniform(0.05, 0.5)
+                nr_.append([[rng.uniform(-2, 2) for _ in range(3)], ((math.cos(th) * dn + math.sin(th) * t) * rng.choice([-1, 1]) * 10 ** rng.uniform(-1, 1)).tolist()])
+            rr = [[[rng.randint(-3, 3) for _ in range(3)], d] for _ in range(1 if shape == 'one-ray' else m)]
+            n1, n2 = rng.choice([(1.0, 1.5), (1.5, 1.0), (1.0, 1.0)])
+            for dt in ('int64', 'int32', 'float64'):
+                refr.append({'rays': rr, 'normals': nr_, 'n1': n1, 'n2': n2, 'error': 0.01, 'two_d': two_d, 'ray_dtype': dt, 'normal_dtype': None,
+                             'kind': 'dtype/ray=%s/%s%d' % (dt, shape, m)})
+    return refl, refr
 
 
 def boundary_cases():
@@ -417,7 +476,9 @@ def run(ctx):
                 'decades) and either sign, batches of 1..5 rays with one normal per ray or one shared, [2 x 3] inputs; refract: the same '
                 'normals, index pairs incl. equal, nearly equal and random 1..2.5, incidence angles up to mu sin(t1) = 0.97 and 87 deg, '
                 'requested errors 1e-2..1e-4; boundary stream (normal incidence, normal along the ray, near-critical) compares flags '
-                'only; non-trivial = every clause evaluated; distinct by (api, rays, normals, indices)')
+                'only; dtype family: the same clauses plus equality with the float result when the ray (or the normal) is handed over as an '
+                'int64 / int32 / float32 / float64 array or tensor or (NumPy) a python list — axis-aligned and small-integer directions, integer '
+                'origins, non-integer normals and hit points, and vice versa; non-trivial = every clause evaluated; distinct by (api, rays, normals, indices, dtypes)')
     ctx.trusted += ['tracer/shim.py + tracer/recipes/c11.py (translator incl. the cut of `refract` at its while statement; validated each run by the numeric self-check)',
                     'torch/numpy kernels modelled as exact real arithmetic; float rounding not modelled',
                     'IEEE NaN semantics (a NaN start value stays NaN through the Newton step and compares false in the guard): the traced definitions carry NaN as an uninterpreted marker',
@@ -463,6 +524,16 @@ def run(ctx):
     for c in boundary_cases():
         apply_oracle(ctx, 'boundary', c)
         ctx.case('boundary/%s/%s' % (c['what'], c['kind']), json.dumps(c, sort_keys=True), nontrivial=False)
+    drefl, drefr = gen_dtype(ctx, 48 if ctx.thorough else 12)
+    for c in drefl:
+        for which in ('numpy', 'torch'):
+            if which == 'torch' and 'list' in (c.get('ray_dtype'), c.get('normal_dtype')):
+                continue                                   # the PyTorch API takes tensors only
+            res = apply_oracle(ctx, 'reflect', dict(c, api=which))
+            ctx.case('reflect/%s/%s' % (which, c['kind']), (which, json.dumps(c, sort_keys=True)), nontrivial=len(res) >= 8)
+    for c in drefr:
+        res = apply_oracle(ctx, 'refract', c)
+        ctx.case('refract/%s' % c['kind'], json.dumps(c, sort_keys=True), nontrivial=len(res) >= 9)
 
 
 def search(ctx):
@@ -475,6 +546,13 @@ def search(ctx):
             return
     for c in boundary_cases():
         apply_oracle(ctx, 'boundary', c)
+    drefl, drefr = gen_dtype(ctx, 24)
+    for c in drefl:
+        for which in ('numpy', 'torch'):
+            if not (which == 'torch' and 'list' in (c.get('ray_dtype'), c.get('normal_dtype'))):
+                apply_oracle(ctx, 'reflect', dict(c, api=which))
+    for c in drefr:
+        apply_oracle(ctx, 'refract', c)
 
 
 def replay(ctx, rec):
